@@ -397,7 +397,7 @@ def _sites(db, chk, m):
             chk.ob(rule, "kernel-to-kernel edges: from the END of the previous kernel stored under the SAME stream key", keys_ok, where, found=sorted(src), accepted="last_node[stream] written and read with the row's stream",
                    why="another key joins kernels of different streams")
     # sync source selection
-    kf = m.func("CPGraph._construct_graph_from_kernels.handle_cuda_sync")
+    kf = H.inline_helpers(m, m.func("CPGraph._construct_graph_from_kernels.handle_cuda_sync"), qual="CPGraph._construct_graph_from_kernels.handle_cuda_sync", exclude=("_add_gpu_cpu_sync_edge", "_add_edge_helper", "_add_kernel_launch_delay_edge"))          # (sibling closures it delegates to written out)
     sync_loops = [n for n in ast.walk(kf) if isinstance(n, ast.For) and any(isinstance(c, ast.Call) and isinstance(c.func, ast.Attribute) and c.func.attr == "_add_gpu_cpu_sync_edge" for c in ast.walk(n))]
     defs = []
     for lp_ in sync_loops:
@@ -423,9 +423,10 @@ def _sites(db, chk, m):
         import copy as _copy
         return U().visit(_copy.deepcopy(e))
     defs = [_unwrap(d) for d in defs]
-    oksel = len(defs) == 1 and (H.match("last_node.values() if $n == context_sync else [last_node.get($r.stream)]", defs[0]) is not None or
-                               H.match("[last_node.get($r.stream)] if $n != context_sync else last_node.values()", defs[0]) is not None or
-                               H.match("[last_node.get($r.stream)] if $n == stream_sync else last_node.values()", defs[0]) is not None)
+    sel_pats = ["last_node.values() if {n} == context_sync else [last_node.get($r.stream)]", "[last_node.get($r.stream)] if {n} != context_sync else last_node.values()",
+                "[last_node.get($r.stream)] if {n} == stream_sync else last_node.values()"]
+    # the event's name: a local bound to row.name, or row.name itself
+    oksel = len(defs) == 1 and any(H.match(p_.format(n=n_), defs[0]) is not None for p_ in sel_pats for n_ in ("$n", "$r.name"))
     chk.ob(rule, "sync edges: a Context Sync waits for the last activity of every stream, a Stream Sync only for the last activity of ITS stream", oksel if len(defs) == 1 else None, m.loc(kf),
            found=[ast.unparse(d) for d in defs], accepted="last_node.values() if name == context_sync else [last_node.get(row.stream)]",
            why="falling back to all streams makes a sync edge leave a kernel the call never waited for (possibly backward in time)")
